@@ -322,3 +322,29 @@ class DropStatement(Rule):
         if n:
             log[self.rid] = log.get(self.rid, 0) + n
         return text
+
+
+class ReplaceBlocksNumbered(Rule):
+    """replaces the k-th occurrence of `anchor` + its balanced bracket group `(...)`/`{...}` by `repl` with `{k}` substituted
+    (the replaced blocks are verified separately as their own obligations)"""
+
+    def __init__(self, rid, anchor, repl, count, note=""):
+        Rule.__init__(self, rid, anchor, repl, count=count, note=note)
+
+    def apply(self, text, where, log):
+        n = 0
+        while True:
+            m = lx.mask(text)
+            mm = re.search(self.pattern, m, re.S)
+            if not mm:
+                break
+            o = mm.end() - 1
+            if m[o] not in "([{":
+                raise Undecided(f"rule {self.rid}: anchor must end at an opening bracket")
+            c = lx.match_close(m, o)
+            text = text[:mm.start()] + self.repl.replace("{k}", str(n)) + text[c + 1:]
+            n += 1
+        if n != self.count:
+            raise Undecided(f"rewrite rule {self.rid} ({self.note}) applied {n}x in {where}, expected {self.count}x -- the code's shape changed; contract needs review")
+        log[self.rid] = log.get(self.rid, 0) + n
+        return text
